@@ -1,4 +1,4 @@
-\* generation, condition focus: units of <= 4 lines, one level, over all 22 conditions, no macros
+\* generation, condition focus: units of <= 4 lines, one level, over the 22 base conditions, no macros
 SPECIFICATION Spec
 CONSTANTS
   PPMode = TRUE
@@ -9,7 +9,7 @@ CONSTANTS
   Zero = 1
   One = 2
   Names <- NoIdx
-  CondIdx <- AllConds
+  CondIdx <- BaseConds
   DefIdx <- NoIdx
   TextIdx <- DirTexts
   MaxLines = 4
